@@ -1,4 +1,4 @@
-// VERIF: lib rc quick_shards=1
+// VERIF: lib rc quick_shards=1 fuzz=peg_dynamic_char
 // C02 - run-time generated grammars vs the PEG reference interpreter, char instantiation.
 #include "c02_peg.hpp"
 
